@@ -319,6 +319,23 @@ def run_job(job):
                         #  event is not repeated, and the statement asks for no more than an intact copy somewhere)
                         errs += [(dict(k, after_restart=True), d_) for k, d_ in rest if k["class"] in (
                             "selected_file_not_mirrored", "mirrored_content_differs", "incomplete_file_under_final_name")]
+                    if crashed and not fault_mode and method == "move":
+                        # move mode: the mirror died at that boundary, a new one is started over the same directories and
+                        # receives an event for every file again - late/repeated notifications for files that are already
+                        # (half-)moved are stale by now.  Whatever it does with them, every RF file keeps an intact copy
+                        # (source, destination or its tmp. staging name) and nothing incomplete gets a final name.
+                        n_before = len(errs)
+                        with contextlib.redirect_stdout(io.StringIO()), contextlib.redirect_stderr(io.StringIO()):
+                            mir2 = mirror_mod.DigitalRFMirror(src, dest, method=method, starttime=start, endtime=end)
+                            handlers2 = [mir2.event_handlers[i] for i in order if i < len(mir2.event_handlers)]
+                            try:
+                                for kind, rel in base_events(files):
+                                    for h in handlers2:
+                                        h.dispatch(FileCreatedEvent(os.path.join(src, rel)))
+                            except Exception as e:  # noqa: BLE001
+                                errs.append(({"class": "restarted_mirror_raised", "exc": type(e).__name__}, repr(e)))
+                        observe("restart", "after a restarted mirror was told about every file again")
+                        errs[n_before:] = [(dict(k, after_restart=True), d_) for k, d_ in errs[n_before:]]
                     if not crashed and not (fault_mode and cp is not None):
                         errs += end_oracle(method, src, dest, files, selected, cur_sha, hist, rf_files, md_files)
                         part["traces"] += 1
